@@ -211,6 +211,27 @@ func (fr *Frame) evalC(e *CExpr, env *Env, hint *Sort) *GVal {
 		case "NaN":
 			return tv(mk("(_ NaN 11 53)", SF64))
 		}
+		if strings.HasPrefix(e.Name, `\`) {
+			for _, k := range ioGhosts {
+				if e.Name == `\`+k.name {
+					if t := env.st.ghost[k.name]; t != nil {
+						return tv(t)
+					}
+					return tv(ex.p.NamedConst(k.name+"@unknown_"+ex.fname0(), k.sort))
+				}
+			}
+		}
+		// a local variable of the function that is not defined on every path to this point: its value
+		// there is arbitrary (an unconstrained constant can only make the obligation harder)
+		if env.dbgHead != nil {
+			if vs := fr.dbgAll[e.Name]; len(vs) > 0 {
+				for _, v := range vs {
+					if _, isConst := v.(*ssa.Const); !isConst {
+						return &GVal{T: ex.p.NamedConst(e.Name+"@undefined_here_"+ex.fname0(), w.SortOf(v.Type())), Typ: v.Type()}
+					}
+				}
+			}
+		}
 		return bad("unknown identifier %s", e.Name)
 	case "old":
 		n := *env
@@ -645,6 +666,70 @@ func (fr *Frame) evalCall(e *CExpr, env *Env, hint *Sort) *GVal {
 		_, es := arr.S.ArrayParts()
 		pf := "sortPerm_" + sortIdent(es)
 		return tv(App(pf, SInt, arr, ln, arg(0, SInt)))
+	case `\ret`, `\arg`:
+		// \ret(f, i): the i-th result of the most recent call of f on this path; \arg(f, i): its i-th argument
+		if len(e.Args) == 2 && e.Args[0].Op == "id" && e.Args[1].Op == "int" {
+			key := e.Name[1:] + ":" + e.Args[0].Name + ":" + e.Args[1].Name
+			if t := env.st.ghost[key]; t != nil {
+				return tv(t)
+			}
+			// no such call on this path: arbitrary
+			s := hint
+			if s == nil {
+				s = ex.p.ghostSorts[key]
+			}
+			if s == nil {
+				s = SVal
+			}
+			return tv(ex.p.NamedConst(strings.ReplaceAll(key, ":", ".")+"@no_call_"+ex.fname0(), s))
+		}
+	case "deref":
+		g := fr.evalC(e.Args[0], env, nil)
+		if g.Ptr != nil {
+			saved := ex.st
+			ex.st = env.st
+			t := fr.load(g.Ptr)
+			ex.st = saved
+			return tv(t)
+		}
+		ex.unsupp("contract: deref of a non-pointer in %s", e)
+		return tv(ex.p.FreshConst("bad", SBool))
+	case "strOfBytes":
+		bs := w.sliceSort(SBV8)
+		ex.p.DeclareFun("gs.from_"+sortIdent(SBV8), []*Sort{bs.S}, SStr)
+		return tv(App("gs.from_"+sortIdent(SBV8), SStr, arg(0, bs.S)))
+	case "marshalOf", "marshalOK", "jsonDecodeOf", "jsonValid":
+		bs := w.sliceSort(SBV8)
+		ex.p.DeclareFun("jsonEncode", []*Sort{SVal}, bs.S)
+		ex.p.DeclareFun("jsonMarshalOK", []*Sort{SVal}, SBool)
+		ex.p.DeclareFun("jsonDecode", []*Sort{bs.S}, SVal)
+		ex.p.DeclareFun("jsonOK", []*Sort{bs.S}, SBool)
+		switch e.Name {
+		case "marshalOf":
+			return tv(App("jsonEncode", bs.S, arg(0, SVal)))
+		case "marshalOK":
+			return tv(App("jsonMarshalOK", SBool, arg(0, SVal)))
+		case "jsonDecodeOf":
+			return tv(App("jsonDecode", SVal, arg(0, bs.S)))
+		default:
+			return tv(App("jsonOK", SBool, arg(0, bs.S)))
+		}
+	case "fileBytes", "fileOK":
+		bs := w.sliceSort(SBV8)
+		ex.p.DeclareFun("file.bytes", []*Sort{SStr}, bs.S)
+		ex.p.DeclareFun("file.ok", []*Sort{SStr}, SBool)
+		if e.Name == "fileBytes" {
+			return tv(App("file.bytes", bs.S, arg(0, SStr)))
+		}
+		return tv(App("file.ok", SBool, arg(0, SStr)))
+	case "stdinBytes", "stdinOK":
+		bs := w.sliceSort(SBV8)
+		ex.p.DeclareFun("stdin.bytes", nil, bs.S)
+		ex.p.DeclareFun("stdin.ok", nil, SBool)
+		if e.Name == "stdinBytes" {
+			return tv(App("stdin.bytes", bs.S))
+		}
+		return tv(App("stdin.ok", SBool))
 	case "runesOf":
 		si := w.sliceSort(SBV32)
 		ex.p.DeclareFun("gs.to_"+sortIdent(SBV32), []*Sort{SStr}, si.S)
